@@ -1,6 +1,9 @@
-# sourced by bin/setup and bin/check: offline Go environment and paths
+# sourced by bin/setup, bin/check, bin/build.sh: offline Go environment and paths
 export GOFLAGS=-mod=mod GOPROXY=off GOSUMDB=off GOTOOLCHAIN=local
-export VERIF_DIR="${VERIF_DIR:-/verif}"
+if [ -z "${VERIF_DIR:-}" ]; then
+  VERIF_DIR="$(cd "$(dirname "${BASH_SOURCE[0]}")/.." && pwd)"
+fi
+export VERIF_DIR
 export VERIF_BUILD="$VERIF_DIR/.build"
 export GOCACHE="${GOCACHE:-$VERIF_BUILD/gocache}"
 mkdir -p "$VERIF_BUILD"
